@@ -135,7 +135,20 @@ class Dim:
             for h in st.handlers:
                 for b in h.body: s.stmt(b, final)
         elif isinstance(st, ast.Return):
-            if st.value is not None: s.expr(st.value)
+            if st.value is not None:
+                v = s.expr(st.value)
+                if s.__dict__.get("_closure_ret") is not None: s._closure_ret.append(v)
+        elif isinstance(st, (ast.FunctionDef, ast.AsyncFunctionDef)):
+            # a closure: remembered; its body is read with the dimensions of the arguments at each call (below), and
+            # once here with what its annotations say, so that a closure that is only handed on is read too
+            s.__dict__.setdefault("closures", {})[st.name] = st
+            saved = dict(s.env)
+            for p in st.args.posonlyargs + st.args.args:
+                t = s.eng.T.ann_type(p.annotation)
+                s.env[p.arg] = ("pt", 1) if t == "Point2D" else UNK
+            for b in st.body: s.stmt(b, final)
+            s.env = saved
+            s.final = final
         elif isinstance(st, ast.Expr): s.expr(st.value)
         elif isinstance(st, ast.Assert): s.expr(st.test)
     def bind(s, t, v, force=False):
@@ -258,6 +271,20 @@ class Dim:
     def call(s, e):
         f = e.func; args = [s.expr(a) for a in e.args]
         for k in e.keywords: s.expr(k.value)
+        if isinstance(f, ast.Name) and f.id in s.__dict__.get("closures", {}) and s.__dict__.get("_cdepth", 0) < 3 \
+                and not any(isinstance(a, ast.Starred) for a in e.args):
+            d = s.closures[f.id]
+            ps = d.args.posonlyargs + d.args.args
+            saved, saved_ret, fin = dict(s.env), s.__dict__.get("_closure_ret"), s.final
+            s._cdepth = s.__dict__.get("_cdepth", 0) + 1
+            s._closure_ret = []
+            for p, v in zip(ps, args): s.env[p.arg] = v
+            for b in d.body: s.stmt(b, fin)
+            rets = s._closure_ret
+            s._closure_ret, s.env, s.final = saved_ret, saved, fin
+            s._cdepth -= 1
+            rets = [r for r in rets if r != UNK]
+            return rets[0] if rets and all(r == rets[0] for r in rets) else UNK
         # record literal/const dims flowing to callee numeric params
         for kind, tg in s.inf.by_node.get(id(e), []):
             if kind in ("call",) and isinstance(tg, list):
